@@ -176,3 +176,221 @@ func Program() diffrun.Program {
 func MainFiles() []string {
 	return []string{"m_one.go", "b_two.go", "z_three.go", "a_four.go", "h_js.go", "h_common.go"}
 }
+
+const orderMain = `package main
+
+import (
+	"math"
+	"math/bits"
+	"sync/atomic"
+	"unicode"
+	"unicode/utf8"
+
+	"MOD/q"
+	"MOD/r"
+)
+
+type shape interface{ area() Int }
+type sq struct{ s Int }
+type rc struct{ w, h Int }
+type tri struct{ b, h Int }
+type dot struct{}
+type named Int
+type text string
+
+func (x sq) area() Int    { return x.s * x.s }
+func (x rc) area() Int    { return x.w * x.h }
+func (x *tri) area() Int  { return x.b * x.h / 2 }
+func (dot) area() Int     { return 0 }
+func (x named) area() Int { return Int(x) }
+
+// closures in several clauses of a type switch inside a loop capture the clause variable
+func typeSwitchClosures(vals []interface{}) Int {
+	var fs []func() Int
+	for _, it := range vals {
+		switch v := it.(type) {
+		case sq:
+			fs = append(fs, func() Int { return v.area() + 1 })
+		case rc:
+			fs = append(fs, func() Int { return v.area() + 2 })
+		case *tri:
+			fs = append(fs, func() Int { return v.area() + 3 })
+		case named:
+			fs = append(fs, func() Int { return Int(v) + 4 })
+		case text:
+			fs = append(fs, func() Int { return Int(len(v)) + 5 })
+		case Int:
+			fs = append(fs, func() Int { return v + 6 })
+		case string, bool:
+			fs = append(fs, func() Int { if s, ok := v.(string); ok { return Int(len(s)) }; return 7 })
+		default:
+			fs = append(fs, func() Int { _ = v; return 8 })
+		}
+	}
+	t := Int(0)
+	for _, f := range fs {
+		t = t*3 + f()
+	}
+	return t
+}
+
+// many escaping variables of different kinds captured at different depths
+func escaping() Int {
+	t := Int(0)
+	for i := Int(0); i < 3; i++ {
+		a, b, c, d := i, i+1, i+2, i+3
+		p, q2 := &a, &b
+		arr := [2]Int{c, d}
+		st := rc{c, d}
+		f := func() Int { *p += 1; *q2 += c; arr[0] += d; st.w++; return a + b + arr[0] + st.w }
+		g := func() func() Int { e := a + d; return func() Int { e += b; return e + c } }
+		t += f() + g()() + f()
+	}
+	return t
+}
+
+// anonymous types, each used once, in one function
+func anonTypes() Int {
+	a := struct{ x Int }{1}
+	b := struct{ y string }{"b"}
+	c := struct{ z [3]Int }{[3]Int{1, 2, 3}}
+	d := struct{ w map[string]Int }{map[string]Int{"k": 4}}
+	e := []struct{ v *Int }{{&a.x}}
+	f := map[struct{ k1, k2 Int }]struct{ v1 string }{{1, 2}: {"v"}}
+	g := func(struct{ in Int }) struct{ out Int } { return struct{ out Int }{9} }
+	h := make(chan struct{ c Int }, 1)
+	h <- struct{ c Int }{7}
+	var i interface{} = struct{ q Int }{11}
+	var j interface{ area() Int; other() } = nil
+	_ = j
+	n := a.x + Int(len(b.y)) + c.z[2] + d.w["k"] + *e[0].v + Int(len(f[struct{ k1, k2 Int }{1, 2}].v1)) + g(struct{ in Int }{}).out + (<-h).c
+	if v, ok := i.(struct{ q Int }); ok {
+		n += v.q
+	}
+	return n
+}
+
+func generic1[T any](x T) T            { return x }
+func generic2[T, U any](x T, y U) (U, T) { return y, x }
+
+type box[T any] struct{ v T }
+
+func (b box[T]) get() T { return b.v }
+
+func manyInstances() Int {
+	n := generic1(Int(1)) + Int(generic1(int8(2))) + Int(generic1(int16(3))) + Int(generic1(uint8(4))) + Int(generic1(uint16(5))) + Int(generic1(uint32(6)))
+	n += Int(len(generic1("s"))) + Int(generic1(float64(7))) + Int(generic1(float32(8))) + Int(real(generic1(complex(9, 0))))
+	n += generic1(sq{2}).area() + generic1(rc{1, 2}).area() + Int(generic1(named(3)))
+	s, i := generic2(Int(1), "a")
+	f, b := generic2(true, 1.5)
+	n += i + Int(len(s)) + Int(f)
+	if b {
+		n++
+	}
+	n += box[Int]{1}.get() + Int(box[int8]{2}.get()) + Int(len(box[string]{"x"}.get())) + box[sq]{sq{3}}.get().area() + box[box[Int]]{box[Int]{4}}.get().get()
+	return n
+}
+
+// a blocking function with many locals, labels and a select
+func blocking(c chan Int) Int {
+	total, i, j, k, l, m := Int(0), Int(0), Int(0), Int(0), Int(0), Int(0)
+outer:
+	for i = 0; i < 3; i++ {
+		for j = 0; j < 3; j++ {
+			select {
+			case v := <-c:
+				total += v
+			default:
+				k++
+			}
+			if j == i {
+				l += j
+				continue outer
+			}
+			m++
+		}
+	}
+	go func() { c <- total }()
+	return <-c + k + l + m
+}
+
+var (
+	v1 = q.Reg("v1") + v3
+	v2 = q.Reg("v2")
+	v3 = q.Reg("v3") + v5 + r.Val
+	v4 = q.Reg("v4") + v1
+	v5 = q.Reg("v5")
+	cnt int32
+)
+
+func main() {
+	tr := &tri{3, 4}
+	vals := []interface{}{sq{2}, rc{2, 3}, tr, named(5), text("hey"), Int(6), "str", true, 3.5, sq{1}, rc{1, 1}}
+	atomic.AddInt32(&cnt, 2)
+	c := make(chan Int, 2)
+	c <- 5
+	n := typeSwitchClosures(vals) + escaping() + anonTypes() + manyInstances() + blocking(c) + v1 + v2 + v3 + v4 + v5
+	n += Int(bits.Len(8)) + Int(math.Sqrt(16)) + Int(utf8.RuneLen('x')) + Int(cnt) + q.Twice(3) + r.Thrice(2)
+	if unicode.IsUpper('A') {
+		n++
+	}
+	println("C17/order", itoa(int64(n)), q.Order)
+}
+`
+
+const orderQ = `package q
+
+type Int = INTALIAS
+
+var Order string
+
+func Reg(s string) Int { Order += s + ";"; return Int(len(Order)) }
+
+func Twice(x Int) Int { return helper(x) * 2 }
+
+func helper(x Int) Int { return x }
+
+func init() { Reg("q.init") }
+`
+
+const orderR = `package r
+
+import "MOD/q"
+
+var Val = q.Reg("r.Val")
+
+func Thrice(x q.Int) q.Int { return q.Twice(x) + x }
+`
+
+// OrderProgram exercises compiler paths that keep their intermediate results in Go maps.
+func OrderProgram() diffrun.Program {
+	name := "c17_order"
+	mod := diffrun.ModName(name)
+	r := func(s string) string { return strings.ReplaceAll(s, "MOD", mod) }
+	return diffrun.Program{Name: name, Files: map[string]string{
+		"main.go":      r(orderMain),
+		"q/q.go":       strings.ReplaceAll(orderQ, "type Int = INTALIAS\n", ""),
+		"q/int_js.go":  "//go:build js\n\npackage q\n\ntype Int = int\n",
+		"q/int_ref.go": "//go:build !js\n\npackage q\n\ntype Int = int32\n",
+		"r/r.go":       r(orderR),
+	}}
+}
+
+// LineProgram is a package whose files all claim, through //line directives, to come from the same
+// generated source: nothing but their real names distinguishes them.
+func LineProgram() diffrun.Program {
+	files := map[string]string{}
+	for i, n := range LineFiles() {
+		body := "//line tables.tmpl:1\npackage main\n\n"
+		v := string(rune('a' + i))
+		body += "var " + v + "1 = reg(\"" + v + "1\")\n\nfunc init() { reg(\"init-" + v + "\") }\n\nfunc f" + v + "() Int { return " + v + "1 }\n"
+		if i == 0 {
+			body += "\nvar order string\n\nfunc reg(s string) Int { order += s + \";\"; return Int(len(order)) }\n\nfunc main() { println(\"C17/line\", order, itoa(int64(fa()+fb()+fc()+fd()))) }\n"
+		}
+		files[n] = body
+	}
+	return diffrun.Program{Name: "c17_line", Files: files}
+}
+
+// LineFiles lists the Go files of LineProgram's package main.
+func LineFiles() []string { return []string{"t_one.go", "k_two.go", "w_three.go", "c_four.go"} }
